@@ -661,4 +661,209 @@ theorem moveAssign_spec {p : Pool} {o src : Nat} {a mv : Obj} (hi : Inv p) (ho :
       funext x; simp only [ByteLog.State.set]; split <;> (try rfl)
       split <;> rfl
 
+theorem toString_spec {p : Pool} {o : Nat} {s : Obj} (hi : Inv p) (ho : p.objs o = some s) {b : List Nat} (hb : abs p o = some b)
+    (u : Bool) (m : Mode) : toString o u m p = .ok (toStringOf b u m) p := by
+  have hsz := hi.sizeLe ho
+  cases hi.mode ho with
+  | stack ha hc =>
+    rw [abs_stack ho hc] at hb; cases hb
+    have hr : readUnits s.chars s.size p = .ok (s.stack.take s.size) p := by
+      rw [hc]; exact readUnits_stack _ ho (by have := hi.stackLen ho; omega)
+    simp only [toString, bind_apply, getObj_eq ho, hr, pure_apply]
+  | heap k blk ha hc hk hl =>
+    rw [abs_heap ho hc hk] at hb; cases hb
+    have hr : readUnits s.chars s.size p = .ok (blk.take s.size) p := by
+      rw [hc]; exact readUnits_heap _ hk (by omega)
+    simp only [toString, bind_apply, getObj_eq ho, hr, pure_apply]
+
+/-- the fault-schedule counter is not part of the invariant or of what a stream shows -/
+theorem inv_allocs {p : Pool} (hi : Inv p) (n : Nat) : Inv { p with allocs := n } :=
+  ⟨hi.obj, hi.uniq, hi.owned, hi.fresh⟩
+theorem abs_allocs (p : Pool) (n : Nat) : abs { p with allocs := n } = abs p := rfl
+
+theorem append_nil_set {st : ByteLog.State} {o : Nat} {b : List Nat} (hb : st o = some b) : st.set o (some (b ++ [])) = st := by
+  rw [List.append_nil]; exact set_same _ _ _ hb
+
+theorem live_of_abs {p : Pool} {o : Nat} (h : (abs p o).isSome = true) : ∃ s b, p.objs o = some s ∧ abs p o = some b := by
+  cases hs : p.objs o with
+  | none => rw [abs_none hs] at h; cases h
+  | some s =>
+    cases hb : abs p o with
+    | none => rw [hb] at h; cases h
+    | some b => exact ⟨s, b, rfl, rfl⟩
+
+theorem dead_of_abs {p : Pool} {o : Nat} (h : (abs p o).isNone = true) : p.objs o = none := by
+  cases hs : p.objs o with
+  | none => rfl
+  | some s => simp [abs, hs] at h
+
+/-- wide text: the conversion either yields the reference rendering, which is appended, or rejects the
+    text with `unicode_error` before the stream is touched -/
+theorem appendText_spec {p : Pool} {o : Nat} {s : Obj} (hi : Inv p) (ho : p.objs o = some s) {b : List Nat} (hb : abs p o = some b)
+    (e : Utf.Enc) (m : Mode) (xs : List Nat) (hne : e ≠ .utf8) (hu : UnitsLt (Lemmas.Utf.unitBound e) xs) (hlen : xs.length < hugeBufferSize) :
+    (∃ p', appendText o e m (some xs) p = .ok () p' ∧ Inv p' ∧ (∃ bytes, textRendering e m xs = some bytes ∧
+        abs p' = (abs p).set o (some (b ++ bytes))) ∧ p'.failAt = p.failAt)
+    ∨ (∃ p', appendText o e m (some xs) p = .throw .unicodeError p' ∧ Inv p' ∧ abs p' = abs p ∧ textRendering e m xs = none ∧ p'.failAt = p.failAt)
+    ∨ (∃ p', appendText o e m (some xs) p = .throw .badAlloc p' ∧ Inv p' ∧ abs p' = abs p ∧ p.failAt ≠ none ∧ p'.failAt = p.failAt) := by
+  have hconv := Lemmas.Utf.convert_eq_reference e .utf8 hne m false xs hu hlen
+  -- the state after the conversion's own allocation (if any)
+  have key : ∀ p0 : Pool, Inv p0 → p0.objs o = some s → abs p0 = abs p → p0.failAt = p.failAt →
+      (∃ p', (match Utf.convert e .utf8 m false (some xs) with
+                | .ok bytes => append o bytes
+                | .throw e => throwE e
+                | _ => fault .convAbort) p0 = .ok () p' ∧ Inv p' ∧ (∃ bytes, textRendering e m xs = some bytes ∧
+          abs p' = (abs p).set o (some (b ++ bytes))) ∧ p'.failAt = p.failAt)
+      ∨ (∃ p', (match Utf.convert e .utf8 m false (some xs) with
+                | .ok bytes => append o bytes
+                | .throw e => throwE e
+                | _ => fault .convAbort) p0 = .throw .unicodeError p' ∧ Inv p' ∧ abs p' = abs p ∧ textRendering e m xs = none ∧ p'.failAt = p.failAt)
+      ∨ (∃ p', (match Utf.convert e .utf8 m false (some xs) with
+                | .ok bytes => append o bytes
+                | .throw e => throwE e
+                | _ => fault .convAbort) p0 = .throw .badAlloc p' ∧ Inv p' ∧ abs p' = abs p ∧ p.failAt ≠ none ∧ p'.failAt = p.failAt) := by
+    intro p0 hi0 ho0 ha0 hf0
+    rw [hconv]
+    cases h : Unicode.refSteps e .utf8 m false (Unicode.seg e xs) with
+    | some out =>
+      have hr : Unicode.reference e .utf8 m false xs = .ok out := by simp [Unicode.reference, h]
+      have ht : textRendering e m xs = some out := by simp [textRendering, hr]
+      rw [hr]
+      rcases append_spec hi0 ho0 (b := b) (by rw [ha0]; exact hb) out with ⟨p', h1, h2, h3, h4⟩ | ⟨h1, h2⟩
+      · exact Or.inl ⟨p', h1, h2, ⟨out, ht, by rw [h3, ha0]⟩, h4.trans hf0⟩
+      · refine Or.inr (Or.inr ⟨_, h1, inv_allocs hi0 _, ha0, ?_, hf0⟩)
+        rw [← hf0, h2]; simp
+    | none =>
+      have hr : Unicode.reference e .utf8 m false xs = .throw .unicodeError := by simp [Unicode.reference, h]
+      have ht : textRendering e m xs = none := by simp [textRendering, hr]
+      rw [hr]
+      exact Or.inr (Or.inl ⟨p0, rfl, hi0, ha0, ht, hf0⟩)
+  by_cases hm : Utf.measure e .utf8 xs ≥ maxSsoLength
+  · by_cases hfail : p.failAt = some (p.allocs + 1)
+    · refine Or.inr (Or.inr ⟨{ p with allocs := p.allocs + 1 }, ?_, inv_allocs hi _, rfl, by rw [hfail]; simp, rfl⟩)
+      simp only [appendText, bind_apply, if_pos hm, tickAlloc, if_pos hfail]
+    · have h0 := key { p with allocs := p.allocs + 1 } (inv_allocs hi _) ho rfl rfl
+      simp only [appendText, bind_apply, if_pos hm, tickAlloc, if_neg hfail]
+      exact h0
+  · have h0 := key p hi ho rfl rfl
+    simp only [appendText, if_neg hm]
+    exact h0
+
+theorem set_set (st : ByteLog.State) (o : Nat) (a b : Option (List Nat)) : (st.set o a).set o b = st.set o b := by
+  funext x; simp only [ByteLog.State.set]; split <;> rfl
+
+theorem set_get (st : ByteLog.State) (o : Nat) (a : Option (List Nat)) : (st.set o a) o = a := by
+  simp [ByteLog.State.set]
+
+theorem appendNum_spec {p : Pool} {o : Nat} {s : Obj} (hi : Inv p) (ho : p.objs o = some s) {b : List Nat} (hb : abs p o = some b)
+    (neg : Bool) (ds : List Nat) :
+    (∃ p', appendNum o neg ds p = .ok () p' ∧ Inv p' ∧ abs p' = (abs p).set o (some (b ++ ((if neg then [45] else []) ++ ds))) ∧ p'.failAt = p.failAt)
+    ∨ (∃ p', appendNum o neg ds p = .throw .badAlloc p' ∧ Inv p' ∧ p.failAt ≠ none ∧ p'.failAt = p.failAt ∧
+        (abs p' = abs p ∨ (neg = true ∧ abs p' = (abs p).set o (some (b ++ [45]))))) := by
+  cases neg with
+  | false =>
+    have : appendNum o false ds = append o ds := by simp [appendNum]
+    rw [this]
+    rcases append_spec hi ho hb ds with ⟨p', h1, h2, h3, h4⟩ | ⟨h1, h2⟩
+    · exact Or.inl ⟨p', h1, h2, by simpa using h3, h4⟩
+    · exact Or.inr ⟨{ p with allocs := p.allocs + 1 }, h1, inv_allocs hi _, by rw [h2]; simp, rfl, Or.inl rfl⟩
+  | true =>
+    have : appendNum o true ds = (appendChar o 45 1 >>= fun _ => append o ds) := by simp [appendNum]
+    rw [this]
+    rcases appendChar_spec hi ho hb 45 1 with ⟨p1, h1, hi1, ha1, hf1⟩ | ⟨h1, h2⟩
+    · have hb1 : abs p1 o = some (b ++ [45]) := by rw [ha1, set_get]; rfl
+      obtain ⟨s1, _, ho1, _⟩ := live_of_abs (p := p1) (o := o) (by rw [hb1]; rfl)
+      rcases append_spec hi1 ho1 hb1 ds with ⟨p2, h2, hi2, ha2, hf2⟩ | ⟨h2, h3⟩
+      · refine Or.inl ⟨p2, by simp only [bind_apply, h1, h2], hi2, ?_, hf2.trans hf1⟩
+        rw [ha2, ha1, set_set]; simp
+      · refine Or.inr ⟨{ p1 with allocs := p1.allocs + 1 }, by simp only [bind_apply, h1, h2], inv_allocs hi1 _, ?_, hf1, Or.inr ⟨rfl, ?_⟩⟩
+        · rw [← hf1, h3]; simp
+        · exact ha1
+    · exact Or.inr ⟨{ p with allocs := p.allocs + 1 }, by simp only [bind_apply, h1], inv_allocs hi _, by rw [h2]; simp, rfl, Or.inl rfl⟩
+
+/-- One step of any admissible history from a pool that satisfies the invariant: the operation returns
+    (or throws `unicode_error` for malformed wide text, or `bad_alloc` under a fault schedule) — never a
+    fault, never `stuck` —, the invariant holds again, and the abstraction moved by the spec step. -/
+theorem step_sound {p : Pool} (hi : Inv p) (op : Op) (hwf : op.wf) (hok : ByteLog.ok (abs p) op.toSpec = true) :
+    (∃ p', op.run .repaired p = .ok () p' ∧ Inv p' ∧ abs p' = ByteLog.step (abs p) op.toSpec ∧ p'.failAt = p.failAt)
+    ∨ (∃ p', op.run .repaired p = .throw .unicodeError p' ∧ Inv p' ∧ abs p' = abs p ∧ ByteLog.step (abs p) op.toSpec = abs p ∧
+          p'.failAt = p.failAt)
+    ∨ (∃ p', op.run .repaired p = .throw .badAlloc p' ∧ Inv p' ∧ p.failAt ≠ none ∧ p'.failAt = p.failAt ∧
+          (abs p' = abs p ∨ ∃ o ds b, op = .appendNum o true ds ∧ abs p o = some b ∧ abs p' = (abs p).set o (some (b ++ [45])))) := by
+  cases op with
+  | ctor o =>
+    simp only [Op.toSpec, ByteLog.ok] at hok
+    obtain ⟨p', h1, h2, h3, h4⟩ := ctor_spec hi (dead_of_abs hok)
+    exact Or.inl ⟨p', h1, h2, h3, h4⟩
+  | dtor o =>
+    simp only [Op.toSpec, ByteLog.ok] at hok
+    obtain ⟨s, b, ho, hb⟩ := live_of_abs hok
+    obtain ⟨p', h1, h2, h3, h4⟩ := dtor_spec hi ho
+    exact Or.inl ⟨p', h1, h2, h3, h4⟩
+  | moveCtor o src =>
+    simp only [Op.toSpec, ByteLog.ok, Bool.and_eq_true] at hok
+    obtain ⟨s, b, hs, hb⟩ := live_of_abs hok.2
+    obtain ⟨p', h1, h2, h3, h4, _⟩ := moveCtor_spec hi (dead_of_abs hok.1) hs hb
+    exact Or.inl ⟨p', h1, h2, by simp only [Op.toSpec, ByteLog.step, hb]; exact h3, h4⟩
+  | moveAssign o src =>
+    simp only [Op.toSpec, ByteLog.ok, Bool.and_eq_true, bne_iff_ne, ne_eq] at hok
+    obtain ⟨a, _, ho, _⟩ := live_of_abs hok.1.1
+    obtain ⟨s, b, hs, hb⟩ := live_of_abs hok.1.2
+    obtain ⟨p', h1, h2, h3, h4, _⟩ := moveAssign_spec hi ho hs hok.2 hb
+    exact Or.inl ⟨p', h1, h2, by simp only [Op.toSpec, ByteLog.step, hb]; exact h3, h4⟩
+  | append o bs =>
+    simp only [Op.toSpec, ByteLog.ok] at hok
+    obtain ⟨s, b, ho, hb⟩ := live_of_abs hok
+    rcases append_spec hi ho hb bs with ⟨p', h1, h2, h3, h4⟩ | ⟨h1, h2⟩
+    · exact Or.inl ⟨p', h1, h2, by simp only [Op.toSpec, ByteLog.step, hb]; exact h3, h4⟩
+    · exact Or.inr (Or.inr ⟨{ p with allocs := p.allocs + 1 }, h1, inv_allocs hi _, by rw [h2]; simp, rfl, Or.inl rfl⟩)
+  | appendChar o c n =>
+    simp only [Op.toSpec, ByteLog.ok] at hok
+    obtain ⟨s, b, ho, hb⟩ := live_of_abs hok
+    rcases appendChar_spec hi ho hb c n with ⟨p', h1, h2, h3, h4⟩ | ⟨h1, h2⟩
+    · exact Or.inl ⟨p', h1, h2, by simp only [Op.toSpec, ByteLog.step, hb]; exact h3, h4⟩
+    · exact Or.inr (Or.inr ⟨{ p with allocs := p.allocs + 1 }, h1, inv_allocs hi _, by rw [h2]; simp, rfl, Or.inl rfl⟩)
+  | appendText o e m us =>
+    cases us with
+    | none =>
+      simp only [Op.toSpec, ByteLog.ok] at hok
+      obtain ⟨s, b, ho, hb⟩ := live_of_abs hok
+      refine Or.inl ⟨p, by simp [Op.run, appendText], hi, ?_, rfl⟩
+      simp only [Op.toSpec, ByteLog.step, hb]
+      exact (append_nil_set hb).symm
+    | some xs =>
+      simp only [Op.toSpec, ByteLog.ok] at hok
+      obtain ⟨s, b, ho, hb⟩ := live_of_abs hok
+      obtain ⟨hne, hu, hlen⟩ := hwf
+      rcases appendText_spec hi ho hb e m xs hne hu hlen with ⟨p', h1, h2, ⟨bytes, h3, h4⟩, h5⟩ | ⟨p', h1, h2, h3, h4, h5⟩ | ⟨p', h1, h2, h3, h4, h5⟩
+      · exact Or.inl ⟨p', h1, h2, by simp only [Op.toSpec, ByteLog.step, hb, h3, Option.getD_some]; exact h4, h5⟩
+      · refine Or.inr (Or.inl ⟨p', h1, h2, h3, ?_, h5⟩)
+        simp only [Op.toSpec, ByteLog.step, hb, h4, Option.getD_none]
+        exact append_nil_set hb
+      · exact Or.inr (Or.inr ⟨p', h1, h2, h4, h5, Or.inl h3⟩)
+  | appendNum o neg ds =>
+    simp only [Op.toSpec, ByteLog.ok] at hok
+    obtain ⟨s, b, ho, hb⟩ := live_of_abs hok
+    rcases appendNum_spec hi ho hb neg ds with ⟨p', h1, h2, h3, h4⟩ | ⟨p', h1, h2, h3, h4, h5⟩
+    · exact Or.inl ⟨p', h1, h2, by simp only [Op.toSpec, ByteLog.step, hb]; exact h3, h4⟩
+    · refine Or.inr (Or.inr ⟨p', h1, h2, h3, h4, ?_⟩)
+      rcases h5 with h5 | ⟨h5, h6⟩
+      · exact Or.inl h5
+      · subst h5; exact Or.inr ⟨o, ds, b, rfl, hb, h6⟩
+  | truncate o n =>
+    simp only [Op.toSpec, ByteLog.ok] at hok
+    obtain ⟨s, b, ho, hb⟩ := live_of_abs hok
+    obtain ⟨p', h1, h2, h3, h4⟩ := truncate_spec hi ho hb n
+    exact Or.inl ⟨p', h1, h2, by simp only [Op.toSpec, ByteLog.step, hb]; exact h3, h4⟩
+  | erase o n =>
+    simp only [Op.toSpec, ByteLog.ok] at hok
+    obtain ⟨s, b, ho, hb⟩ := live_of_abs hok
+    obtain ⟨p', h1, h2, h3, h4⟩ := erase_spec hi ho hb n
+    exact Or.inl ⟨p', h1, h2, by simp only [Op.toSpec, ByteLog.step, hb]; exact h3, h4⟩
+  | toString o u m =>
+    simp only [Op.toSpec, ByteLog.ok] at hok
+    obtain ⟨s, b, ho, hb⟩ := live_of_abs hok
+    refine Or.inl ⟨p, by simp only [Op.run, bind_apply, toString_spec hi ho hb, pure_apply], hi, ?_, rfl⟩
+    simp only [Op.toSpec, ByteLog.step, hb]
+    exact (append_nil_set hb).symm
+
 end StVerif.Stream
